@@ -647,9 +647,20 @@ Error Message: {}
                 blob = self._get_session_blob(
                     key, service, username, algorithm
                 )
-                if not key.verify_ssh_sig(blob, sig):
-                    self._log(INFO, "Auth rejected: invalid signature")
+                # The signature must use the algorithm named in the request
+                # (certificate algorithms sign with their base algorithm).
+                sig_algorithm = algorithm.replace("-cert-v01@openssh.com", "")
+                if sig.get_binary() != b(sig_algorithm):
+                    self._log(
+                        INFO,
+                        "Auth rejected: signature algorithm does not match request",  # noqa
+                    )
                     result = AUTH_FAILED
+                else:
+                    sig.rewind()
+                    if not key.verify_ssh_sig(blob, sig):
+                        self._log(INFO, "Auth rejected: invalid signature")
+                        result = AUTH_FAILED
         elif method == "keyboard-interactive":
             submethods = m.get_string()
             result = self.transport.server_object.check_auth_interactive(
